@@ -220,6 +220,9 @@ func fieldKey(named *types.Named, field string) string {
 }
 
 func (c *FnCtx) fieldArr(st *State, named *types.Named, f *types.Var) Term {
+	if c.e.isInlineObj(named, f) {
+		panic(unsup("inline-object field %s.%s used as a plain field (whole-struct copy of its owner, or a modifies designator naming it)", named.Obj().Name(), f.Name()))
+	}
 	so := arraySort(sV, c.e.d.sortOf(f.Type()))
 	k := fieldKey(named, f.Name())
 	if so.Elem.Kind == KInt {
@@ -333,6 +336,12 @@ func isRefType(t types.Type) bool {
 // readFacts: facts assumed for a value read from the heap or received from outside.
 func (c *FnCtx) readFacts(st *State, t Term) {
 	st.assume(c.typeFacts(t))
+	if c.e.typedRefs && t.T != nil && t.Sort.Kind == KV {
+		if tag, ok := c.refTag(t.T); ok {
+			// Go's static typing: a non-nil value of pointer / map type refers to an object of exactly that type
+			st.assume(sOr(sEq(t.S, "nilV"), sEq(sApp("dyntype", t.S), tag)))
+		}
+	}
 	if t.T != nil && t.Sort.Kind == KV && isRefType(t.T) {
 		al := c.allocArr(st)
 		st.assume(sOr(sEq(t.S, "nilV"), sSel(al.S, t.S)))
